@@ -1690,6 +1690,771 @@ fn dogstatsd_case(out: &mut Out, size: usize, n: usize, as_dist: bool, cycles: u
     }
 }
 
+
+// ---------------------------------------------------------------------------------------------
+// stream H (round 6): the `Drain` OBJECT read by arbitrary closure scripts (Lean: `DrainIt`, `reservoir consumes`)
+
+#[derive(Clone, Debug)]
+enum ItOp {
+    Next,
+    Nth(usize),
+    Len,
+    Rate,
+    Hint,
+    Collect, // by_ref().collect()
+    Count,   // by_ref().count()
+    Last,    // by_ref().last()
+}
+
+#[derive(Clone, Debug)]
+enum ItFin {
+    Drop,
+    Count,
+    Last,
+    Collect(usize), // flavour: collect / fold / for_each / sum of positions is not usable for wild values
+    Skip(usize),
+}
+
+fn vals_tok(v: &[u64]) -> String {
+    if v.is_empty() {
+        "-".into()
+    } else {
+        v.iter().map(|b| format!("{:016x}", b)).collect::<Vec<_>>().join("+")
+    }
+}
+
+fn optv_tok(v: Option<f64>) -> String {
+    match v {
+        None => "~".into(),
+        Some(x) => format!("{:016x}", x.to_bits()),
+    }
+}
+
+struct ScriptSeen {
+    outs: Vec<String>,
+    fin: String,
+    /// values handed to the closure, in order
+    handed: Vec<u64>,
+    /// model-free complaints found while running the script
+    bad: Vec<String>,
+}
+
+/// one `consume` whose closure reads the Drain by `script`, then `fin` takes it by value
+fn consume_script(res: &AtomicSamplingReservoir, script: &[ItOp], fin: &ItFin) -> ScriptSeen {
+    let mut s = ScriptSeen { outs: vec![], fin: String::new(), handed: vec![], bad: vec![] };
+    res.consume(|mut drain| {
+        let len0 = drain.len();
+        let rate0 = drain.sample_rate().to_bits();
+        let mut gone = 0usize; // values handed out or skipped so far
+        let mut exhausted = false;
+        for (i, op) in script.iter().enumerate() {
+            match op {
+                ItOp::Next => {
+                    let v = drain.next();
+                    if exhausted && v.is_some() {
+                        s.bad.push(format!("step {}: next() returned a value after the iterator had returned None", i));
+                    }
+                    match v {
+                        Some(x) => {
+                            s.handed.push(x.to_bits());
+                            gone += 1;
+                        }
+                        None => exhausted = true,
+                    }
+                    s.outs.push(optv_tok(v));
+                }
+                ItOp::Nth(k) => {
+                    let v = drain.nth(*k);
+                    if exhausted && v.is_some() {
+                        s.bad.push(format!("step {}: nth({}) returned a value after the iterator had returned None", i, k));
+                    }
+                    match v {
+                        Some(x) => {
+                            s.handed.push(x.to_bits());
+                            gone += k + 1;
+                        }
+                        None => {
+                            exhausted = true;
+                            gone = len0;
+                        }
+                    }
+                    s.outs.push(optv_tok(v));
+                }
+                ItOp::Len => {
+                    let l = drain.len();
+                    if l + gone != len0 {
+                        s.bad.push(format!("step {}: len() = {} after {} of {} values were taken", i, l, gone, len0));
+                    }
+                    s.outs.push(l.to_string());
+                }
+                ItOp::Rate => {
+                    let r = drain.sample_rate().to_bits();
+                    if r != rate0 {
+                        s.bad.push(format!("step {}: sample_rate() changed while reading ({:016x} -> {:016x})", i, rate0, r));
+                    }
+                    s.outs.push(format!("{:016x}", r));
+                }
+                ItOp::Hint => {
+                    let (lo, hi) = drain.size_hint();
+                    let left = len0 - gone.min(len0);
+                    // the contract of Iterator::size_hint: lo <= remaining <= hi
+                    if lo > left || hi.map(|h| h < left).unwrap_or(false) {
+                        s.bad.push(format!("step {}: size_hint() = ({}, {:?}) but {} values remain", i, lo, hi, left));
+                    }
+                    s.outs.push(format!("{}:{}", lo, hi.map(|h| h.to_string()).unwrap_or("~".into())));
+                }
+                ItOp::Collect => {
+                    let v: Vec<u64> = drain.by_ref().map(|x| x.to_bits()).collect();
+                    if exhausted && !v.is_empty() {
+                        s.bad.push(format!("step {}: a loop over the iterator yielded values after it had returned None", i));
+                    }
+                    gone += v.len();
+                    exhausted = true;
+                    s.outs.push(vals_tok(&v));
+                    s.handed.extend(v);
+                }
+                ItOp::Count => {
+                    let c = drain.by_ref().count();
+                    if c + gone != len0 {
+                        s.bad.push(format!("step {}: count() = {} after {} of {} values were taken", i, c, gone, len0));
+                    }
+                    gone += c;
+                    exhausted = true;
+                    s.outs.push(format!("#{}", c));
+                }
+                ItOp::Last => {
+                    let l = drain.by_ref().last();
+                    if let Some(x) = l {
+                        s.handed.push(x.to_bits());
+                    }
+                    gone = len0;
+                    exhausted = true;
+                    s.outs.push(optv_tok(l));
+                }
+            }
+        }
+        let left = len0 - gone.min(len0);
+        match fin {
+            ItFin::Drop => {
+                drop(drain);
+                s.fin = "-".into();
+            }
+            ItFin::Count => {
+                let c = drain.count();
+                if c != left {
+                    s.bad.push(format!("count() = {} but {} values remained", c, left));
+                }
+                s.fin = format!("#{}", c);
+            }
+            ItFin::Last => {
+                let l = drain.last();
+                if l.is_some() != (left > 0) {
+                    s.bad.push(format!("last() = {:?} but {} values remained", l, left));
+                }
+                if let Some(x) = l {
+                    s.handed.push(x.to_bits());
+                }
+                s.fin = optv_tok(l);
+            }
+            ItFin::Collect(flavour) => {
+                let v: Vec<u64> = match flavour % 4 {
+                    0 => drain.map(|x| x.to_bits()).collect(),
+                    1 => drain.fold(Vec::new(), |mut a, x| {
+                        a.push(x.to_bits());
+                        a
+                    }),
+                    2 => {
+                        let mut a = vec![];
+                        drain.for_each(|x| a.push(x.to_bits()));
+                        a
+                    }
+                    _ => {
+                        let mut a = vec![];
+                        for x in drain {
+                            a.push(x.to_bits());
+                        }
+                        a
+                    }
+                };
+                if v.len() != left {
+                    s.bad.push(format!("a by-value loop yielded {} values but {} remained", v.len(), left));
+                }
+                s.fin = vals_tok(&v);
+                s.handed.extend(v);
+            }
+            ItFin::Skip(k) => {
+                let v: Vec<u64> = drain.skip(*k).map(|x| x.to_bits()).collect();
+                if v.len() != left.saturating_sub(*k) {
+                    s.bad.push(format!("skip({}) then a loop yielded {} values but {} remained", k, v.len(), left));
+                }
+                s.fin = vals_tok(&v);
+                s.handed.extend(v);
+            }
+        }
+    });
+    s
+}
+
+fn script_tok(script: &[ItOp]) -> String {
+    list(script.iter().map(|o| match o {
+        ItOp::Next => "n".to_string(),
+        ItOp::Nth(k) => format!("t{}", k),
+        ItOp::Len => "l".into(),
+        ItOp::Rate => "r".into(),
+        ItOp::Hint => "h".into(),
+        ItOp::Collect => "a".into(),
+        ItOp::Count => "c".into(),
+        ItOp::Last => "z".into(),
+    }))
+}
+
+fn fin_tok(f: &ItFin) -> String {
+    match f {
+        ItFin::Drop => "D".into(),
+        ItFin::Count => "C".into(),
+        ItFin::Last => "L".into(),
+        ItFin::Collect(_) => "V".into(),
+        ItFin::Skip(k) => format!("S{}", k),
+    }
+}
+
+fn iter_cycle(out: &mut Out, res: &AtomicSamplingReservoir, cap: usize, pushed: &[u64], script: &[ItOp], fin: &ItFin) {
+    let seen = consume_script(res, script, fin);
+    out.op(
+        &format!("reservoir consumes {} {}", script_tok(script), fin_tok(fin)),
+        &format!("outs={} fin={}", if seen.outs.is_empty() { "-".to_string() } else { seen.outs.join(";") }, seen.fin),
+    );
+    let ctx = format!("cap={} pushed n={} closure script {} then {}", cap, pushed.len(), script_tok(script), fin_tok(fin));
+    for b in &seen.bad {
+        out.oracle_fail("the Drain iterator contradicts itself (next/len/size_hint/adaptors)", &format!("{}: {}", ctx, b));
+    }
+    if seen.handed.len() > cap {
+        out.oracle_fail("a drain yields more values than the capacity", &format!("{}: {} values handed to the closure", ctx, seen.handed.len()));
+    }
+    if !is_sub_multiset(&seen.handed, pushed) {
+        out.oracle_fail(
+            "drain yields a value not pushed since the previous drain",
+            &format!("{}: handed {:x?} pushed {:x?} (a value handed out twice counts as not pushed)", ctx, seen.handed, pushed),
+        );
+    }
+    if !res.is_empty() {
+        out.oracle_fail("reservoir not empty after a drain", &ctx);
+    }
+}
+
+fn pick_script(r: &mut Rng, cap: usize) -> (Vec<ItOp>, ItFin) {
+    let len = r.below(7);
+    let mut v = vec![];
+    for _ in 0..len {
+        v.push(match r.weighted(&[6, 3, 3, 1, 2, 2, 1, 1]) {
+            0 => ItOp::Next,
+            1 => ItOp::Nth(r.below(cap + 3)),
+            2 => ItOp::Len,
+            3 => ItOp::Rate,
+            4 => ItOp::Hint,
+            5 => ItOp::Collect,
+            6 => ItOp::Count,
+            _ => ItOp::Last,
+        });
+    }
+    // many scripts keep calling next() past the end
+    if r.chance(1, 2) {
+        for _ in 0..r.range(1, cap.min(6) + 2) {
+            v.push(ItOp::Next);
+        }
+    }
+    let fin = match r.below(6) {
+        0 => ItFin::Drop,
+        1 => ItFin::Count,
+        2 => ItFin::Last,
+        3 => ItFin::Skip(r.below(cap + 2)),
+        _ => ItFin::Collect(r.below(4)),
+    };
+    (v, fin)
+}
+
+fn iter_session(r: &mut Rng, out: &mut Out, cap: usize, corpus: Option<(Vec<ItOp>, ItFin)>) {
+    let res = AtomicSamplingReservoir::new(cap);
+    out.op(&format!("reservoir new {}", cap), "ok");
+    out.count("iterator-script sessions");
+    let cycles = r.range(1, 3);
+    for cycle in 0..cycles {
+        let n = pick_n(r, cap).min(40);
+        let mut pushed = vec![];
+        for pos in 0..n {
+            let v = if r.chance(1, 8) { f64::from_bits(*r.pick(WILD)) } else { (cycle * 1000 + pos + 1) as f64 };
+            let raw = pick_raw(r, pos);
+            let p = push_scripted(&res, v, raw);
+            out.op(&format!("reservoir push {:016x} {}", v.to_bits(), raw), &push_answer(&p));
+            pushed.push(v.to_bits());
+        }
+        let (script, fin) = match (&corpus, cycle) {
+            (Some(c), 0) => c.clone(),
+            _ => pick_script(r, cap),
+        };
+        for op in &script {
+            out.count(&format!("iterator op {}", match op {
+                ItOp::Next => "next",
+                ItOp::Nth(_) => "nth",
+                ItOp::Len => "len",
+                ItOp::Rate => "sample_rate",
+                ItOp::Hint => "size_hint",
+                ItOp::Collect => "by_ref().collect",
+                ItOp::Count => "by_ref().count",
+                ItOp::Last => "by_ref().last",
+            }));
+        }
+        iter_cycle(out, &res, cap, &pushed, &script, &fin);
+        if n > 0 && cap > 0 {
+            out.nontrivial();
+        }
+    }
+}
+
+// ---------------------------------------------------------------------------------------------
+// stream I (round 6): real generator at long streams and at the default capacity; several free-running pushers
+
+const LN_2E11: f64 = 26.021_9; // ln(2e11): two-sided Hoeffding bound with false alarm 1e-11
+
+/// Real generator, one pusher.  Two families of tests, each with false alarm < 1e-11 per test on correct code:
+/// * per BIN of stream positions (`bins` equal ranges): the number of retained values of a bin over `trials` cycles.  In
+///   one cycle the retained set of Algorithm R is a uniformly random `cap`-subset of the `n` positions, i.e. `cap` draws
+///   WITHOUT replacement; by Hoeffding (1963, Thm 4) the with-replacement bound applies: the total over `trials`
+///   independent cycles deviates from `trials*cap/bins` by more than `sqrt(trials*cap*ln(2e11)/2)` w.p. < 1e-11.
+/// * per SLOT: the fraction of cycles in which slot `s` ends up holding a value of the second half of the stream.  Slot `s`
+///   is overwritten by position `i >= cap` with probability `1/(i+1)`, so it survives positions `m..n` untouched w.p.
+///   `m/n`: with `m = n/2 >= cap` the indicator is Bernoulli(1/2) exactly, independent across cycles (plain Hoeffding).
+///   This sees a generator whose output is biased in the SLOT it picks (frozen / favoured slots) at large ranges.
+fn uniformity_probe(out: &mut Out, cap: usize, n: usize, trials: usize, bins: usize) {
+    assert!(n % 2 == 0 && n / 2 >= cap && n % bins == 0);
+    out.case(&format!("stat bins+slots cap={} n={} trials={} bins={}", cap, n, trials, bins));
+    out.count("statistical searches (real generator)");
+    let res = AtomicSamplingReservoir::new(cap);
+    let mut bin = vec![0u64; bins];
+    let mut late = vec![0u64; cap];
+    let mut foreign = 0u64;
+    QUIET_PANIC.with(|q| q.set(true));
+    let r = catch_unwind(AssertUnwindSafe(|| {
+        for _ in 0..trials {
+            for pos in 0..n {
+                res.push(pos as f64);
+            }
+            res.consume(|drain| {
+                if drain.len() != cap || drain.sample_rate().to_bits() != (cap as f64 / n as f64).to_bits() {
+                    foreign += 1;
+                }
+                for (slot, v) in drain.enumerate() {
+                    if v >= 0.0 && (v as usize) < n && slot < cap {
+                        bin[(v as usize) * bins / n] += 1;
+                        if (v as usize) >= n / 2 {
+                            late[slot] += 1;
+                        }
+                    } else {
+                        foreign += 1;
+                    }
+                }
+            });
+        }
+    }));
+    QUIET_PANIC.with(|q| q.set(false));
+    if r.is_err() {
+        out.oracle_fail("push panicked", &format!("cap={} n={} with the real generator", cap, n));
+        return;
+    }
+    if foreign > 0 {
+        out.oracle_fail("repeated push/drain cycles are not independent", &format!("cap={} n={} trials={}: {} wrong lengths/rates/values", cap, n, trials, foreign));
+        return;
+    }
+    out.nontrivial();
+    let t_bin = ((trials * cap) as f64 * LN_2E11 / 2.0).sqrt();
+    let e_bin = (trials * cap) as f64 / bins as f64;
+    if std::env::var("C16_DEBUG").is_ok() {
+        let mb = (0..bins).map(|b| (bin[b] as f64 - e_bin).abs()).fold(0.0, f64::max);
+        let ms = (0..cap).map(|x| (late[x] as f64 - trials as f64 / 2.0).abs()).fold(0.0, f64::max);
+        eprintln!("uniformity cap={} n={} T={}: bins max dev {:.0} of allowed {:.0} (expected {:.0}); slots max dev {:.0} of allowed {:.0}", cap, n, trials, mb, t_bin, e_bin, ms, (trials as f64 * LN_2E11 / 2.0).sqrt());
+    }
+    let bad_bins: Vec<usize> = (0..bins).filter(|&b| (bin[b] as f64 - e_bin).abs() > t_bin).collect();
+    if !bad_bins.is_empty() {
+        out.oracle_fail(
+            "retention frequency differs from capacity/n (real generator)",
+            &format!(
+                "cap={} n={} trials={}: retained values per {}-th of the stream {:?}; expected {:.0} ± {:.0} each (Hoeffding for sampling without replacement, false alarm < 1e-11); outside at {:?}",
+                cap, n, trials, bins, bin, e_bin, t_bin, bad_bins
+            ),
+        );
+    }
+    let t_slot = (trials as f64 * LN_2E11 / 2.0).sqrt();
+    let e_slot = trials as f64 / 2.0;
+    let bad_slots: Vec<usize> = (0..cap).filter(|&s| (late[s] as f64 - e_slot).abs() > t_slot).collect();
+    if !bad_slots.is_empty() {
+        out.oracle_fail(
+            "retention frequency differs from capacity/n (real generator)",
+            &format!(
+                "cap={} n={} trials={}: number of cycles in which a slot ends with a value of the second half of the stream, per slot (first 32) {:?}; expected {:.0} ± {:.0} (exactly Bernoulli(1/2) per cycle); outside at slots {:?}",
+                cap, n, trials, &late[..cap.min(32)], e_slot, t_slot, &bad_slots[..bad_slots.len().min(32)]
+            ),
+        );
+    }
+}
+
+/// Several FREE-RUNNING pushers (real generator, no scheduler), one epoch = all threads push `per` values each, then one
+/// drain.  Thread `t`'s `k`-th value is `t*per+k`.  Whatever the interleaving, the generator's choice is independent of
+/// the slot, so for every epoch the indicator "slot s ends with a value from the second half of ITS thread's stream" has
+/// the same distribution for every slot s (fills, `k < cap <= per/2`, are never late).  The test compares slots with
+/// each other: `late[s] - late[s']` is a sum over independent epochs of variables in [-1,1] with mean 0 →
+/// |difference| > sqrt(2*epochs*ln(2e11)) has probability < 1e-11 (Hoeffding).  Sees generator state SHARED between
+/// pushers that degrades under contention (e.g. a `try_lock` fallback to a fixed slot).  A late store (K-C16-late-store:
+/// a thread descheduled between claim and store) moves at most one slot of an epoch; the margin is wider than any
+/// plausible number of such events.  Counts stay exact (`conc_pushers_epoch_exact`): asserted per epoch.
+fn pushers_uniformity_probe(out: &mut Out, cap: usize, pushers: usize, per: usize, epochs: usize) {
+    assert!(per / 2 >= cap);
+    out.case(&format!("stat free-running pushers cap={} pushers={} per={} epochs={}", cap, pushers, per, epochs));
+    out.count("statistical searches (real generator)");
+    let res = Arc::new(AtomicSamplingReservoir::new(cap));
+    let mut late = vec![0i64; cap];
+    let mut wrong = 0u64;
+    let mut panicked = false;
+    // start line: the pushers SPIN on the epoch number so that they enter an epoch within nanoseconds of each other
+    // (an epoch lasts well under a millisecond; a blocking barrier would let them run one after the other)
+    let epoch = Arc::new(AtomicUsize::new(0));
+    let finished = Arc::new(AtomicUsize::new(0));
+    let mut hs = vec![];
+    for t in 0..pushers {
+        let (res, epoch, finished) = (res.clone(), epoch.clone(), finished.clone());
+        hs.push(std::thread::spawn(move || {
+            QUIET_PANIC.with(|q| q.set(true));
+            let mut ok = true;
+            let mut seen = 0usize;
+            loop {
+                let mut spins = 0u32;
+                let e = loop {
+                    let e = epoch.load(SeqCst);
+                    if e != seen {
+                        break e;
+                    }
+                    spins += 1;
+                    if spins > 20_000 {
+                        std::thread::yield_now();
+                    } else {
+                        std::hint::spin_loop();
+                    }
+                };
+                if e == usize::MAX {
+                    return ok;
+                }
+                seen = e;
+                let r = catch_unwind(AssertUnwindSafe(|| {
+                    for k in 0..per {
+                        res.push((t * per + k) as f64);
+                    }
+                }));
+                ok &= r.is_ok();
+                finished.fetch_add(1, SeqCst);
+            }
+        }));
+    }
+    let total = pushers * per;
+    for ep in 0..epochs {
+        finished.store(0, SeqCst);
+        epoch.store(ep + 1, SeqCst);
+        while finished.load(SeqCst) < pushers {
+            std::thread::yield_now();
+        }
+        res.consume(|drain| {
+            if drain.len() != cap || drain.sample_rate().to_bits() != (cap as f64 / total as f64).to_bits() {
+                wrong += 1;
+            }
+            for (slot, v) in drain.enumerate() {
+                if v >= 0.0 && (v as usize) < total && slot < cap {
+                    if (v as usize) % per >= per / 2 {
+                        late[slot] += 1;
+                    }
+                } else {
+                    wrong += 1;
+                }
+            }
+        });
+    }
+    epoch.store(usize::MAX, SeqCst);
+    for h in hs {
+        panicked |= !h.join().unwrap_or(false);
+    }
+    if panicked {
+        out.oracle_fail("push panicked", &format!("cap={} {} free-running pushers (real generator)", cap, pushers));
+        return;
+    }
+    if wrong > 0 {
+        out.oracle_fail(
+            "the drains' pushed-counts do not add up to the pushes made",
+            &format!("cap={} {} free-running pushers x {} pushes, drain after all pushers finished: {} drains/values with a wrong length, rate or value", cap, pushers, per, wrong),
+        );
+        return;
+    }
+    out.nontrivial();
+    let t = (2.0 * epochs as f64 * LN_2E11).sqrt();
+    let (mn, mx) = (*late.iter().min().unwrap(), *late.iter().max().unwrap());
+    if std::env::var("C16_DEBUG").is_ok() {
+        eprintln!("pushers cap={} pushers={} per={} epochs={}: late {:?} spread {} allowed {:.0}", cap, pushers, per, epochs, late, mx - mn, t);
+    }
+    if (mx - mn) as f64 > t {
+        out.oracle_fail(
+            "retention frequency differs from capacity/n (real generator)",
+            &format!(
+                "cap={} {} free-running pushers x {} pushes, {} epochs: epochs in which a slot ends with a late value, per slot {:?}; all slots have the same distribution, yet max - min = {} > {:.0} (Hoeffding on the difference, false alarm < 1e-11 per pair)",
+                cap, pushers, per, epochs, late, mx - mn, t
+            ),
+        );
+    }
+}
+
+// ---------------------------------------------------------------------------------------------
+// stream J (round 6): DogStatsDBuilder -> build() -> real forwarder thread -> unix datagram socket
+
+struct E2eLog {
+    msgs: Vec<crate::c10::Msg>,
+    bad: Option<String>,
+}
+
+/// reads datagrams until a `sync` gauge with value `id` has arrived (or the deadline: `false`)
+fn read_until_sync(sock: &std::os::unix::net::UnixDatagram, id: f64, log: &mut E2eLog) -> bool {
+    let deadline = std::time::Instant::now() + std::time::Duration::from_secs(30);
+    let mut buf = vec![0u8; 70_000];
+    while std::time::Instant::now() < deadline {
+        match sock.recv(&mut buf) {
+            Ok(k) => match crate::c10::parse_payloads(&[buf[..k].to_vec()]) {
+                Ok(ms) => {
+                    let mut seen = false;
+                    for m in ms {
+                        if m.name == "sync" && m.values.first().and_then(|v| v.parse::<f64>().ok()) == Some(id) {
+                            seen = true;
+                        }
+                        log.msgs.push(m);
+                    }
+                    if seen {
+                        return true;
+                    }
+                }
+                Err(e) => {
+                    log.bad = Some(e);
+                    return false;
+                }
+            },
+            Err(_) => {}
+        }
+    }
+    false
+}
+
+/// `calls`: ('s', 0|1) = with_histogram_sampling, ('z', n) = with_histogram_reservoir_size, in this order
+fn builder_e2e(out: &mut Out, idx: usize, calls: &[(char, usize)], ns: &[usize]) {
+    use metrics::{Key as MKey, Level, Metadata, Recorder};
+    use metrics_exporter_dogstatsd::DogStatsDBuilder;
+    static META: Metadata<'static> = Metadata::new("c16", Level::INFO, None);
+    let calls_tok = list(calls.iter().map(|(c, v)| format!("{}{}", c, v)));
+    out.case(&format!("builder e2e calls={} ns={:?}", calls_tok, ns));
+    out.count("DogStatsDBuilder end-to-end exporters built");
+    // what the documentation of the two setters promises (independent of the Lean model)
+    let sampled = calls.iter().rev().find(|(c, _)| *c == 's').map(|(_, v)| *v == 1).unwrap_or(false);
+    let size = calls.iter().rev().find(|(c, _)| *c == 'z').map(|(_, v)| *v).unwrap_or(DEFAULT_CAP);
+    let dir = std::env::temp_dir().join(format!("mv-c16-{}-{}", std::process::id(), idx));
+    let _ = std::fs::remove_dir_all(&dir);
+    std::fs::create_dir_all(&dir).unwrap();
+    let path = dir.join("s.sock");
+    let sock = std::os::unix::net::UnixDatagram::bind(&path).unwrap();
+    sock.set_read_timeout(Some(std::time::Duration::from_millis(50))).unwrap();
+    let as_dist = idx % 2 == 0;
+    let mut b = DogStatsDBuilder::default()
+        .with_remote_address(format!("unixgram://{}", path.to_str().unwrap()))
+        .expect("address parses")
+        .with_flush_interval(std::time::Duration::from_millis(80))
+        .with_telemetry(false)
+        .send_histograms_as_distributions(as_dist);
+    for (c, v) in calls {
+        b = match c {
+            's' => b.with_histogram_sampling(*v == 1),
+            _ => b.with_histogram_reservoir_size(*v),
+        };
+    }
+    let rec = b.build().expect("exporter builds");
+    let h = rec.register_histogram(&MKey::from_name("h"), &META);
+    let cnt = rec.register_counter(&MKey::from_name("cnt"), &META);
+    let sync = rec.register_gauge(&MKey::from_name("sync"), &META);
+    let mut next_id = 1.0f64;
+    let mut log = E2eLog { msgs: vec![], bad: None };
+    sync.set(next_id);
+    if !read_until_sync(&sock, next_id, &mut log) {
+        out.count("builder e2e: inconclusive (no flush observed within 30 s)");
+        return;
+    }
+    let mut model_line_done = false;
+    for (cycle, &n) in ns.iter().enumerate() {
+        let base = (cycle * 100_000) as f64;
+        let recorded: Vec<f64> = (0..n).map(|i| base + i as f64 + 1.0).collect();
+        // a counter increment before the first and after every record: ONE non-zero counter message carrying n+1 that precedes
+        // every histogram message of the cycle proves that a single flush saw all n records (counters are flushed
+        // before histograms, datagrams of one sender arrive in order)
+        cnt.increment(1);
+        for v in &recorded {
+            h.record(*v);
+            cnt.increment(1);
+        }
+        let mut log = E2eLog { msgs: vec![], bad: None };
+        let mut ok = true;
+        for _ in 0..2 {
+            next_id += 1.0;
+            sync.set(next_id);
+            ok &= read_until_sync(&sock, next_id, &mut log);
+        }
+        if let Some(e) = &log.bad {
+            out.oracle_fail("dogstatsd sampled histogram: unparsable payload", &format!("builder calls {}: {}", calls_tok, e));
+            return;
+        }
+        if !ok {
+            out.count("builder e2e: inconclusive (no flush observed within 30 s)");
+            return;
+        }
+        let ctx = format!(
+            "DogStatsDBuilder::default() + [{}] (documented: sampling {}, reservoir size {}), real forwarder over a unix datagram socket, cycle {}: {} values recorded",
+            calls_tok, sampled, size, cycle, n
+        );
+        let cnts: Vec<(usize, &crate::c10::Msg)> = log.msgs.iter().enumerate().filter(|(_, m)| m.name == "cnt" && m.values != vec!["0".to_string()]).collect();
+        let hists: Vec<(usize, &crate::c10::Msg)> = log.msgs.iter().enumerate().filter(|(_, m)| m.name == "h").collect();
+        let single_flush = cnts.len() == 1
+            && cnts[0].1.values == vec![(n + 1).to_string()]
+            && hists.first().map(|(i, _)| *i > cnts[0].0).unwrap_or(true);
+        let mut vals: Vec<f64> = vec![];
+        for (_, m) in &hists {
+            if m.ty != (if as_dist { "d" } else { "h" }) {
+                out.oracle_fail("dogstatsd sampled histogram: unexpected message", &format!("{}: {:?}", ctx, m));
+            }
+            vals.extend(m.values.iter().filter_map(|v| v.parse::<f64>().ok()));
+        }
+        // holds however the flushes fell: only recorded values, no message larger than the reservoir
+        if vals.iter().any(|v| !(*v == 0.0 || (*v > base && *v <= base + n as f64))) {
+            out.oracle_fail("drain yields a value not pushed since the previous drain", &format!("{}: payload values {:?}", ctx, vals));
+        }
+        if !single_flush && std::env::var("C16_DEBUG").is_ok() {
+            eprintln!("split? n={} msgs={:?}", n, log.msgs.iter().map(|m| format!("{}:{}v:{:?}", m.name, m.values.len(), m.values.first())).collect::<Vec<_>>());
+        }
+        if !single_flush {
+            out.count("builder e2e: cycle split by a flush (weak checks only)");
+            continue;
+        }
+        out.count("builder e2e: single-flush cycles (strict checks)");
+        let rates: Vec<Option<f64>> = hists.iter().map(|(_, m)| m.rate.as_ref().map(|r| r.parse::<f64>().unwrap_or(f64::NAN))).collect();
+        if !sampled {
+            let mut a: Vec<u64> = vals.iter().map(|v| v.to_bits()).collect();
+            let mut e: Vec<u64> = recorded.iter().map(|v| v.to_bits()).collect();
+            a.sort();
+            e.sort();
+            if a != e || rates.iter().any(|r| r.is_some()) {
+                out.oracle_fail(
+                    "the exporter's histogram storage is not the one the builder was configured for",
+                    &format!("{}: sampling is off, every value must be flushed without a rate; got {} values, rates {:?}", ctx, vals.len(), rates),
+                );
+            }
+        } else {
+            let want = n.min(size);
+            let want_rate = if n == 0 { 1.0 } else { want as f64 / n as f64 };
+            if vals.len() != want {
+                out.oracle_fail(
+                    "the reservoir of a built exporter does not have the configured capacity",
+                    &format!("{}: {} values flushed, min(recorded, configured size) = {}", ctx, vals.len(), want),
+                );
+            } else if n <= size && vals != recorded {
+                out.oracle_fail("not all pushed values are yielded although no more than capacity were pushed", &format!("{}: {:?}", ctx, vals));
+            }
+            if rates.iter().any(|r| r.map(|x| x.to_bits()) != Some(want_rate.to_bits())) {
+                out.oracle_fail("sample rate is not yielded / pushed", &format!("{}: messages carry rates {:?}, expected {:?}", ctx, rates, want_rate));
+            }
+            if n > size && size > 0 {
+                out.nontrivial();
+            }
+        }
+        // correspondence with the Lean model of the builder (`reservoir builder`): decode what was observed
+        if !model_line_done && (n > size || !sampled) && n > 0 {
+            model_line_done = true;
+            let y = vals.len();
+            let ans = if hists.is_empty() {
+                format!("sampled=1 cap=0 yielded=0 rate=0/{}", n)
+            } else if let Some(Some(r)) = rates.first() {
+                let rt = if *r == 1.0 {
+                    "1/1".to_string()
+                } else if (y as f64 / n as f64).to_bits() == r.to_bits() {
+                    format!("{}/{}", y, n)
+                } else {
+                    format!("?{:?}", r)
+                };
+                format!("sampled=1 cap={} yielded={} rate={}", y, y, rt)
+            } else {
+                format!("sampled=0 cap=~ yielded={} rate=1/1", y)
+            };
+            out.op(&format!("reservoir builder {} {}", calls_tok, n), &ans);
+        }
+    }
+    let _ = std::fs::remove_dir_all(&dir);
+}
+
+/// wild f64 values through `AtomicHistogram::record` / `is_empty` / `flush` of the Sampled arm (`State::flush`), and a
+/// reservoir of size 0 through `State::flush` (rate 0.0: `points / 0.0 as u64` must not panic)
+fn dogstatsd_wild_case(out: &mut Out, size: usize, vals_bits: &[u64]) {
+    use metrics::Recorder;
+    static META: metrics::Metadata<'static> = metrics::Metadata::new("mv", metrics::Level::INFO, None);
+    out.case(&format!("dogstatsd sampled histogram, wild values, size={} n={}", size, vals_bits.len()));
+    out.count("dogstatsd sampled-histogram flushes");
+    let n = vals_bits.len();
+    QUIET_PANIC.with(|q| q.set(true));
+    let r = catch_unwind(AssertUnwindSafe(|| {
+        let mut driver = metrics_exporter_dogstatsd::verif::StateDriver::new(false, true, size, true, vec![], None);
+        let rec = driver.recorder();
+        let h = rec.register_histogram(&metrics::Key::from_name("h"), &META);
+        let mut writer = metrics_exporter_dogstatsd::verif::Writer::new(8192, false);
+        for b in vals_bits {
+            h.record(f64::from_bits(*b));
+        }
+        let counts = driver.flush(&mut writer);
+        let first = writer.drain();
+        let counts2 = driver.flush(&mut writer);
+        let second = writer.drain();
+        (counts, first, counts2, second)
+    }));
+    QUIET_PANIC.with(|q| q.set(false));
+    let ctx = format!("reservoir size {} (histogram_sampling=true): recorded bit patterns {:x?}", size, vals_bits);
+    let (counts, first, counts2, second) = match r {
+        Ok(x) => x,
+        Err(_) => {
+            out.oracle_fail("push panicked", &format!("{}: record/flush of the sampled histogram panicked", ctx));
+            return;
+        }
+    };
+    let msgs = match crate::c10::parse_payloads(&first) {
+        Ok(m) => m,
+        Err(e) => {
+            // how a non-finite value is WRITTEN is C09's business; only note it
+            out.count("observation: a wild value made the payload unparsable for the strict reader (C09's business)");
+            let _ = e;
+            return;
+        }
+    };
+    let yielded: usize = msgs.iter().map(|m| m.values.len()).sum();
+    if yielded != n.min(size) {
+        out.oracle_fail(
+            "drain length is not min(pushed, capacity)",
+            &format!("{}: {} values in the payloads, {} recorded (a recorded value was not pushed into the reservoir?)", ctx, yielded, n),
+        );
+    }
+    if counts.histogram_contexts != (if n > 0 { 1 } else { 0 }) {
+        out.oracle_fail("dogstatsd sampled histogram: flush counters are not yielded / rate", &format!("{}: {:?} (a histogram with {} recorded values was {}flushed)", ctx, counts, n, if n > 0 { "not " } else { "" }));
+    }
+    if size > 0 && counts.histogram_points != n as u64 {
+        out.oracle_fail("dogstatsd sampled histogram: flush counters are not yielded / rate", &format!("{}: {:?}, expected histogram_points {}", ctx, counts, n));
+    }
+    if !second.is_empty() || counts2.histogram_contexts != 0 {
+        out.oracle_fail("a drain directly after a drain is not empty", &format!("{}: second flush wrote {:?} / {:?}", ctx, second, counts2));
+    }
+    out.nontrivial();
+}
+
 pub fn run(cfg: &Cfg, out: &mut Out) {
     let prev = std::panic::take_hook();
     std::panic::set_hook(Box::new(move |info| {
@@ -1797,6 +2562,81 @@ pub fn run(cfg: &Cfg, out: &mut Out) {
     // ---- stream G: DogStatsD sampled histogram
     for (size, n) in [(DEFAULT_CAP, 10usize), (DEFAULT_CAP, DEFAULT_CAP), (DEFAULT_CAP, 3000), (4, 0), (4, 3), (4, 4), (4, 5), (4, 64), (1, 7), (16, 100)] {
         dogstatsd_case(out, size, n, n % 2 == 0, 3);
+    }
+
+
+    // ---- stream H (round 6): closure scripts over the Drain object
+    {
+        let corpus: Vec<(usize, Vec<ItOp>, ItFin)> = vec![
+            // next() again and again after None (a rewinding next() yields the values a second time)
+            (2, vec![ItOp::Next, ItOp::Next, ItOp::Next, ItOp::Next, ItOp::Next, ItOp::Next, ItOp::Len], ItFin::Collect(0)),
+            (1, vec![ItOp::Collect, ItOp::Next, ItOp::Collect, ItOp::Count, ItOp::Len, ItOp::Hint], ItFin::Count),
+            (3, vec![ItOp::Nth(1), ItOp::Len, ItOp::Nth(0), ItOp::Nth(7), ItOp::Next], ItFin::Last),
+            (4, vec![ItOp::Hint, ItOp::Len, ItOp::Next, ItOp::Hint, ItOp::Count, ItOp::Next], ItFin::Skip(1)),
+            (3, vec![ItOp::Last, ItOp::Next, ItOp::Rate], ItFin::Collect(1)),
+            (0, vec![ItOp::Next, ItOp::Nth(0), ItOp::Len, ItOp::Count], ItFin::Collect(2)),
+            (8, vec![ItOp::Nth(3), ItOp::Next, ItOp::Len], ItFin::Skip(2)),
+            (4, vec![], ItFin::Count),
+            (4, vec![], ItFin::Last),
+            (4, vec![ItOp::Next], ItFin::Collect(3)),
+        ];
+        for (i, (cap, script, fin)) in corpus.into_iter().enumerate() {
+            let mut r = root.fork(0x17E_0000 + i as u64);
+            out.case(&format!("corpus iterator script #{} cap={}", i, cap));
+            iter_session(&mut r, out, cap, Some((script, fin)));
+        }
+        let niter = if cfg.thorough { cfg.cases / 2 } else { cfg.cases / 2 };
+        for i in 0..niter {
+            let mut r = root.fork(0x17F_0000 + i as u64);
+            let cap = match r.below(8) {
+                0 => 0,
+                1 => 1,
+                2 => 2,
+                3 => 3,
+                4 => 8,
+                _ => r.range(4, 12),
+            };
+            out.case(&format!("iterator script seed={} i={}", cfg.seed, i));
+            iter_session(&mut r, out, cap, None);
+        }
+    }
+
+    // ---- stream I (round 6): real generator, long streams, default capacity, free-running pushers
+    {
+        let k = if cfg.thorough { 8 } else { 1 };
+        uniformity_probe(out, 16, 4096, 1500 * k, 8);
+        uniformity_probe(out, DEFAULT_CAP, 4096, 100 * k, 4);
+        uniformity_probe(out, DEFAULT_CAP, 3072, 60 * k, 3);
+        uniformity_probe(out, 8, 65536, 40 * k, 2);
+        pushers_uniformity_probe(out, 8, 3, 4096, 600 * k);
+        pushers_uniformity_probe(out, 2, 4, 1024, 600 * k);
+    }
+
+    // ---- stream J (round 6): the builder, the real forwarder, and wild values through the sampled arm
+    {
+        let configs: Vec<(Vec<(char, usize)>, Vec<usize>)> = vec![
+            (vec![('s', 1), ('z', 4)], vec![9, 4, 64]),
+            (vec![('s', 1)], vec![1500, 1024]),                      // default size
+            (vec![('z', 2000), ('s', 1)], vec![2600, 2000]),         // above the default (a `.min(DEFAULT)` clamp)
+            (vec![('s', 1), ('z', 1000)], vec![1003, 1000]),         // not a power of two, below the default
+            (vec![('s', 0), ('s', 1), ('z', 7), ('z', 3)], vec![10, 3, 2]),
+            (vec![('z', 5)], vec![40]),                              // size set, sampling never enabled: raw (code default)
+            (vec![('s', 1), ('z', 16), ('s', 0)], vec![40]),         // switched off again
+            (vec![('s', 1), ('z', 0)], vec![5, 1]),                  // size 0 through the real flush
+            (vec![('s', 1), ('z', 1)], vec![7, 1]),
+        ];
+        let take = if cfg.thorough { configs.len() } else { configs.len() };
+        for (i, (calls, ns)) in configs.into_iter().take(take).enumerate() {
+            builder_e2e(out, i, &calls, &ns);
+        }
+        let wild: Vec<u64> = WILD.to_vec();
+        dogstatsd_wild_case(out, 16, &wild);
+        dogstatsd_wild_case(out, 4, &wild);
+        dogstatsd_wild_case(out, 16, &[0x7ff8_0000_0000_0000]);
+        dogstatsd_wild_case(out, 16, &[0x7ff0_0000_0000_0000, 0xfff0_0000_0000_0000]);
+        dogstatsd_wild_case(out, 0, &[0x3ff0_0000_0000_0000, 0x4000_0000_0000_0000, 0x7ff8_0000_0000_0000]);
+        dogstatsd_wild_case(out, 0, &[]);
+        dogstatsd_wild_case(out, 1, &[0x8000_0000_0000_0000]);
     }
 
     // ---- stream A: scripted sessions
